@@ -156,7 +156,7 @@ func (r *Run) Mine(i int64) bool {
 // it must call Capped.
 //
 // The budget is measured in CPU time of this worker process (so that an oversubscribed machine
-// does not shrink what a tier covers), with a wall-clock cap of 3x the budget.
+// does not shrink what a tier covers), with a wall-clock cap of 12x the budget.
 func (r *Run) Expired() bool {
 	r.expCalls++
 	if r.expired {
@@ -166,7 +166,7 @@ func (r *Run) Expired() bool {
 		return false
 	}
 	budget := r.End.Sub(r.Start)
-	if time.Since(r.Start) > 3*budget || cpuTime() > budget {
+	if time.Since(r.Start) > 12*budget || cpuTime() > budget {
 		r.expired = true
 	}
 	return r.expired
